@@ -554,6 +554,25 @@ def elem_state(elems):
 
 
 def observe(case):
+    """a `Hang` is only reported when a second attempt (collector off, a larger allowance for the first ones) does not
+    return either: the timers also count the collector's passes over the harness's own objects"""
+    obs = _observe(case, None)
+    if obs.get('exc', '').startswith('Hang'):
+        import gc
+        gc.collect()
+        was = gc.isenabled()
+        gc.disable()
+        try:
+            obs = _observe(case, 20.0 if HANGS[0] < 2 else 1.0)
+        finally:
+            if was:
+                gc.enable()
+        if obs.get('exc', '').startswith('Hang'):
+            HANGS[0] += 1
+    return obs
+
+
+def _observe(case, limit):
     attrs = []
     kw = {}
     names = {'rcmp': rcmp}
@@ -605,7 +624,8 @@ def observe(case):
     # compiling and rendering take milliseconds; what has not returned after 2 s of CPU time (or 20 s of wall time:
     # the machine may be busy with other checks) is taken not to terminate.  Once a few have been seen the others
     # get less time, so a change that makes many of them hang cannot stall the check
-    limit = 2.0 if HANGS[0] < 3 else 0.25
+    if limit is None:
+        limit = 2.0 if HANGS[0] < 3 else 0.25
     old = signal.signal(signal.SIGALRM, _alarm)
     oldv = signal.signal(signal.SIGVTALRM, _alarm)
     signal.setitimer(signal.ITIMER_REAL, limit * 10)
@@ -613,7 +633,6 @@ def observe(case):
     try:
         out = template(src)(*args, L=L, **kw)
     except Hang:
-        HANGS[0] += 1
         return {'src': src, 'exc': 'Hang: no result after %.2f s of CPU time / %.1f s' % (limit, limit * 10)}
     except Exception as e:  # noqa
         return {'src': src, 'exc': type(e).__name__ + ': ' + str(e)[:60]}
